@@ -53,10 +53,10 @@ const NC: u64 = 4;
 const NTK: u64 = 9;
 const NL: u64 = 5;
 /// number of cases of the families A..E
-fn layout(tier: Tier) -> [u64; 6] {
+fn layout(tier: Tier) -> [u64; 7] {
 	let nd = dts(tier).len() as u64;
 	let ni = ibss(tier).len() as u64;
-	[waveforms(tier).len() as u64 * nd, nd, NC, NTK * ni, ni * NL, 2]
+	[waveforms(tier).len() as u64 * nd, nd, NC, NTK * ni, ni * NL, 2, 3]
 }
 /// (family 0..5, index inside the family)
 fn locate(tier: Tier, idx: u64) -> (usize, u64) {
@@ -67,7 +67,7 @@ fn locate(tier: Tier, idx: u64) -> (usize, u64) {
 		}
 		i -= n;
 	}
-	(6, i)
+	(7, i)
 }
 
 // ---------------------------------------------------------------------------------------------
@@ -449,6 +449,7 @@ impl Check for C17 {
 				LETTERS[(i % NL) as usize],
 				ibss(tier)[(i / NL) as usize]
 			),
+			(6, i) => format!("G: a streaming sound whose volume is linked to a tweener, while the sound {}: the parameter keeps following the modulator (compared with a static sound in the same script / with the mapping of the modulator's value)", ["waits for a delayed start", "is paused", "waits for its decoder (underrun)"][i as usize]),
 			(_, i) => format!("F: E2 interleavings: game(add_modulator; {}play(sound whose volume is linked to it)) || audio(3 callbacks), then tweener.set", if i == 0 { "" } else { "add_sub_track; " }),
 		}
 	}
@@ -485,7 +486,13 @@ impl Check for C17 {
 				let mut letters = vec![(i % NL) as u8];
 				fam_e(ibss(tier)[(i / NL) as usize], &mut letters, e_depth(tier), ctx)
 			}
-			(_, i) => fam_f(tier, i, ctx),
+			(5, i) => fam_f(tier, i, ctx),
+			(_, i) => {
+				crate::pacer::set_mode(crate::pacer::Mode::Pacer);
+				if let Err(p) = catch(|| fam_g(i, ctx)) {
+					ctx.fail(format!("panic: {} :: G #{}", p, i), "");
+				}
+			}
 		}
 	}
 }
@@ -1615,4 +1622,95 @@ fn fam_f(tier: Tier, which: u64, ctx: &mut Ctx) {
 	for (s, d) in fails {
 		ctx.fail(s, d);
 	}
+}
+
+// ---------------------------------------------------------------------------------------------
+// G: linked parameters of a sound that is waiting (delayed start, pause, decoder underrun) keep following the modulator
+
+fn fam_g(which: u64, ctx: &mut Ctx) {
+	use crate::probes::{ScriptedDecoder, SoundHandle};
+	use kira::sound::streaming::StreamingSoundData;
+	use kira::sound::Region;
+	let ibs = 4usize;
+	let mapping = Mapping { input_range: (0.0, 1.0), output_range: (Decibels(-20.0), Decibels(0.0)), easing: Easing::Linear };
+	let instant = Tween { duration: Duration::ZERO, ..Default::default() };
+	// one run: streaming (true) or static (false); returns the left channel of every rendered frame
+	let mut run = |streaming: bool, starve: bool| -> Vec<f32> {
+		let mut m = rig::manager(SR, ibs, rig::caps(2), MainTrackBuilder::new());
+		let mut tw = m.add_modulator(TweenerBuilder { initial_value: 0.0 }).expect("tweener");
+		let vol: Value<Decibels> = Value::FromModulator { id: tw.id(), mapping };
+		let start = if which == 0 { StartTime::Delayed(Duration::from_secs_f64(3.0 * ibs as f64 / SR as f64)) } else { StartTime::Immediate };
+		let first = crate::pacer::count();
+		let mut stats = None;
+		let mut h: Box<dyn SoundHandle> = if streaming {
+			let (dec, st) = ScriptedDecoder::new(rig::dc_frames(16, 0.5), SR, vec![3, 1, 2], 1);
+			stats = Some(st);
+			Box::new(m.play(StreamingSoundData::from_decoder(dec).loop_region(Region::from(..)).volume(vol).start_time(start)).map_err(|_| ()).expect("play"))
+		} else {
+			Box::new(m.play(rig::static_data(SR, rig::dc_frames(16, 0.5)).loop_region(Region::from(..)).volume(vol).start_time(start)).expect("play"))
+		};
+		let mut out = vec![];
+		for cb in 0..9usize {
+			match (which, cb) {
+				(0, 1) | (1, 2) | (2, 2) => tw.set(1.0, instant),
+				(1, 1) => h.pause(instant),
+				(1, 5) => h.resume(instant),
+				_ => {}
+			}
+			if streaming {
+				// underrun script: the decoder gets nothing before callbacks 1..=4
+				let steps = if starve && (1..=4).contains(&cb) { 0 } else { ibs as u64 + 6 };
+				if steps > 0 {
+					crate::pacer::step_all_from(first, steps);
+				}
+			}
+			let mut sink = vec![];
+			let rep = rig::render_stereo(&mut m, ibs, &mut sink);
+			if !rep.ok() {
+				panic!("callback monitor: {:?}", rep);
+			}
+			out.extend(sink.iter().map(|f| f.0));
+		}
+		if let Some(st) = stats {
+			h.stop(instant);
+			let mut sink = vec![];
+			rig::render_stereo(&mut m, ibs, &mut sink);
+			drop(m);
+			crate::probes::reap_decoder(first, &st);
+		}
+		out
+	};
+	ctx.evals += 2;
+	ctx.traces += 2;
+	let script = ["delayed start of 3 chunks; tweener set to 1 (instant) before callback 1", "pause before callback 1; tweener set to 1 before callback 2; resume before callback 5", "decoder starved during callbacks 1..=4; tweener set to 1 before callback 2"][which as usize];
+	let desc = format!("looping DC 0.5 sound, volume = mapping(tweener) with 0..1 -> -20..0 dB, internal buffer {} = callback size, 9 callbacks; {}", ibs, script);
+	if which < 2 {
+		let (a, b) = (run(false, false), run(true, false));
+		if let Some(i) = (0..a.len()).find(|&i| (a[i] - b[i]).abs() > 1e-6) {
+			ctx.fail(
+				format!("a streaming sound's linked parameter does not follow the modulator while the sound {} (differs from a static sound in the same script) :: G", ["waits for its start time", "is paused"][which as usize]),
+				format!("{}; frame {}: static {} streaming {}; static {:?}; streaming {:?}", desc, i, a[i], b[i], a, b),
+			);
+		}
+		if a.iter().any(|x| *x != 0.0) {
+			ctx.nontrivial_extra += 1;
+		}
+		ctx.outcome(hash64(&a.iter().map(|x| x.to_bits()).collect::<Vec<_>>()));
+	} else {
+		let b = run(true, true);
+		// after the gap (callbacks 5..) the modulator has been at 1 for three chunks: every audible frame is 0.5 x 0 dB
+		let tail = &b[5 * ibs..];
+		if let Some((i, x)) = tail.iter().enumerate().find(|(_, x)| **x != 0.0 && (**x - 0.5).abs() > 1e-6) {
+			ctx.fail(
+				"a streaming sound's linked parameter does not follow the modulator while the sound waits for its decoder :: G",
+				format!("{}; frame {} after the gap = {}, expected 0.5 (the mapping of the tweener's value 1); all frames {:?}", desc, i, x, b),
+			);
+		}
+		if !tail.iter().any(|x| *x != 0.0) {
+			ctx.fail("the streaming sound is never heard again after the underrun :: G", format!("{}; {:?}", desc, b));
+		}
+		ctx.nontrivial_extra += 1;
+		ctx.outcome(hash64(&b.iter().map(|x| x.to_bits()).collect::<Vec<_>>()));
+	}
+	ctx.state(hash64(&("G", which)));
 }
